@@ -524,3 +524,109 @@ def check_account(ck, P, rid, rid_arena):
         reach = g.reachable_from(g.edge_point(nonnull), barrier_ids=heads)
         if any(n.id in reach for n in nodes):
             ck.violated(rid_arena, inst + ":known-arena-" + what, rs[0].where, "%s also runs for arenas the checkpoint restored" % what, cfg)
+
+
+# --------------------------------------------------------------------------------------------------------------
+# checkpoint position in the history, and arena order agreement between take and restore
+# --------------------------------------------------------------------------------------------------------------
+def check_checkpoint_position(ck, P, rid):
+    """A checkpoint's reference position must be the number of history entries its state already includes: the
+    processed event is appended BEFORE the checkpoint is taken and the position is the current entry count."""
+    cfg = P.config
+    ct = P.fn("checkpoint_take")
+    cs = list(ct.calls("model_allocator_checkpoint_take"))
+    inst = "position@checkpoint_take"
+    if len(cs) != 1:
+        ck.inconclusive(rid, inst, ct.where, "expected one model_allocator_checkpoint_take call", cfg)
+    else:
+        a = X.show(X.callee_args(cs[0])[1])
+        lp = ct.params[0]["name"]
+        if a == "%s->p.p_msgs.count" % lp:
+            ck.holds(rid, inst, cs[0].where, "reference position = array_count(p_msgs): the entries [0, count) are already reflected in the state", cfg)
+        else:
+            ck.violated(rid, inst, cs[0].where, "the checkpoint is labelled with %s instead of the current number of history entries: a restore coasts forward from the wrong event" % a, cfg)
+    n = 0
+    for fname in ("process_msg", "process_lp_init"):
+        f = P.fn(fname)
+        takes = list(f.calls("checkpoint_take"))
+        pushes = [s for s in f.walk() if s.k == "StmtExpr" and s.macros and s.macros[0] == "array_push" and "p_msgs" in (s.d.get("mcall") or "")]
+        disp = list(f.calls("common_msg_process"))
+        for t in takes:
+            n += 1
+            inst = "after-push@%s" % fname
+            stores = [x for pu in pushes for x in pu.walk() if x.k == "UnaryOperator" and x.op == "++" and "count" in X.show(x.children[0])]
+            if stores and all(f.cfg.dominates(s, t) for s in stores) and disp and f.cfg.dominates(disp[0], t):
+                ck.holds(rid, inst, t.where, "the event is dispatched and appended to the history before the checkpoint is taken", cfg)
+            else:
+                ck.violated(rid, inst, t.where, "a checkpoint can be taken before the processed event is in the history: its reference position is one short and the event is executed twice after a restore", cfg)
+    ck.expect(rid, n, 2, "checkpoint_take call sites")
+    # the restore side interprets the position the same way: silent_execution starts AT the returned position
+    se = P.fn("silent_execution")
+    first = [x for x in se.walk() if x.k == "ArraySubscriptExpr" and "p_msgs" in X.show(x.children[0])]
+    if first and X.show(first[0].children[1]) == se.params[1]["name"]:
+        ck.holds(rid, "coast-start@silent_execution", first[0].where, "coast forward starts with the entry AT the restored position", cfg)
+    elif first:
+        ck.violated(rid, "coast-start@silent_execution", first[0].where, "coast forward starts at %s, not at the restored position" % X.show(first[0].children[1]), cfg)
+
+
+def check_arena_order(ck, P, rid):
+    """checkpoint_take and checkpoint_restore walk the arenas in the same order (sections are matched positionally, an
+    arena whose section is not next in the buffer is treated as unknown and wiped)."""
+    cfg = P.config
+    def loop_of(fname, callee):
+        f = P.fn(fname)
+        cs = list(f.calls(callee))
+        if len(cs) != 1:
+            return f, None, None
+        lp = cs[0]
+        while lp is not None and lp.k not in ("WhileStmt", "ForStmt", "DoStmt"):
+            lp = lp.parent
+        return f, cs[0], lp
+    def direction(f, lp):
+        if lp is None:
+            return None
+        if lp.k == "WhileStmt":
+            c = X.strip([x for x in lp.children if x.k != "Null"][0])
+            if c.k == "UnaryOperator" and c.op == "--" and c.postfix:
+                v = X.strip(c.children[0])
+                for d in f.walk():
+                    if d.k == "VarDecl" and d.name == v.name and d.children and "buddies" in X.show(d.children[0]) and "count" in X.show(d.children[0]):
+                        return "descending from count"
+                    if d.k == "BinaryOperator" and d.op == "=" and X.show(d.children[0]) == v.name and "buddies" in X.show(d.children[1]) and "count" in X.show(d.children[1]):
+                        return "descending from count"
+        if lp.k == "ForStmt":
+            c = X.strip(lp.children[2])
+            if c.k == "BinaryOperator" and c.op == "<" and "buddies" in X.show(c.children[1]):
+                return "ascending to count"
+        return None
+    ft, ct, lt = loop_of("model_allocator_checkpoint_take", "checkpoint_full_take")
+    fr, cr, lr = loop_of("model_allocator_checkpoint_restore", "checkpoint_full_restore")
+    dt, dr = direction(ft, lt), direction(fr, lr)
+    inst = "arena-order"
+    if dt is None or dr is None:
+        ck.inconclusive(rid, inst, ft.where, "arena loops not recognised (%s / %s)" % (dt, dr), cfg)
+    elif dt == dr:
+        ck.holds(rid, inst, lt.where, "take and restore both walk the arenas %s" % dt, cfg)
+    else:
+        ck.violated(rid, inst, lr.where, "take walks the arenas %s but restore walks them %s: sections no longer line up, every arena is treated as unknown and wiped" % (dt, dr), cfg)
+    # cursor hand-over: take continues where the previous section ended; restore advances only when a section was consumed
+    if ct is not None:
+        kind, dv = Q.result_var(ct)
+        arg = X.show(X.callee_args(ct)[1])
+        if kind == "var" and dv.name == arg:
+            ck.holds(rid, "cursor@take", ct.where, "%s = checkpoint_full_take(arena, %s): sections are packed back to back" % (arg, arg), cfg)
+        else:
+            ck.violated(rid, "cursor@take", ct.where, "the section cursor is not threaded through checkpoint_full_take (%s)" % X.show(ct)[:70], cfg)
+    if cr is not None:
+        kind, cv = Q.result_var(cr)
+        arg = X.show(X.callee_args(cr)[1])
+        adv = [n for n in fr.walk() if n.k == "BinaryOperator" and n.op == "=" and X.show(n.children[0]) == arg and kind == "var" and X.show(n.children[1]) == cv.name]
+        if adv:
+            paths, _ = Q.path_conditions(fr, adv[0], start_block=fr.cfg.position(cr)[0])
+            nonnull = all(any((X.strip(c).k == "BinaryOperator" and X.strip(c).op in ("==", "!=") and cv.name in X.show(c) and ((X.strip(c).op == "==") != t)) or (X.strip(c).k == "DeclRefExpr" and X.strip(c).name == cv.name and t) for c, t in conds) for conds in paths)
+            if nonnull:
+                ck.holds(rid, "cursor@restore", adv[0].where, "the cursor advances only past a section that was consumed", cfg)
+            else:
+                ck.violated(rid, "cursor@restore", adv[0].where, "the cursor is overwritten even when the arena was unknown (NULL): every later arena loses its section", cfg)
+        else:
+            ck.violated(rid, "cursor@restore", cr.where, "the section cursor does not advance after a restored arena", cfg)
